@@ -185,47 +185,46 @@ def tlc_mc(module, cfg, **kw):
 
 # ------------------------------------------------------------------ Go harness
 
-_vh = None
+_vh = {}
 
 
-def build_harness(race=False):
-    """Build the harness binary against /repo's current working tree with hooks enabled."""
-    global _vh
-    key = "vh-race" if race else "vh"
-    if _vh and key in _vh:
+def build_harness(cmd="rev", race=False):
+    """Build harness/cmd/<cmd> against /repo's current working tree with hooks enabled."""
+    key = cmd + ("-race" if race else "")
+    if key in _vh:
         return _vh[key]
     shutil.copy(os.path.join(REPO, "go.sum"), os.path.join(HARNESS, "go.sum"))
     out = os.path.join(sub("bin"), key)
-    cmd = [GO, "build", "-tags", "verif"] + (["-race"] if race else []) + ["-o", out, "./cmd/vh"]
+    c = [GO, "build", "-tags", "verif"] + (["-race"] if race else []) + ["-o", out, "./cmd/" + cmd]
     env = goenv()
     if REPO != "/repo":
-        # build against another tree (self-tests on scratch worktrees): rewrite replace through a temp go.mod
+        # build against another tree (self-tests on scratch worktrees) through a temporary go.mod
         mod = open(os.path.join(HARNESS, "go.mod")).read().replace("=> /repo", "=> " + REPO)
         tmpmod = os.path.join(sub("mod"), "go.mod")
         open(tmpmod, "w").write(mod)
         shutil.copy(os.path.join(REPO, "go.sum"), os.path.join(sub("mod"), "go.sum"))
-        cmd[2:2] = ["-modfile", tmpmod]
-    p = subprocess.run(cmd, cwd=HARNESS, env=env, stdout=subprocess.PIPE, stderr=subprocess.STDOUT, text=True)
+        c[2:2] = ["-modfile", tmpmod]
+    p = subprocess.run(c, cwd=HARNESS, env=env, stdout=subprocess.PIPE, stderr=subprocess.STDOUT, text=True)
     if p.returncode != 0:
-        raise Machinery("harness build failed:\n" + p.stdout[-6000:])
-    _vh = _vh or {}
+        raise Machinery("harness build failed (%s):\n%s" % (cmd, p.stdout[-6000:]))
     _vh[key] = out
     return out
 
 
-def vh(args, timeout=3600, race=False, stdin=None, env=None):
-    """Run the harness; it writes a JSON result to the path given by --out."""
-    exe = build_harness(race)
+def vh(cmd, args, timeout=3600, race=False, stdin=None, env=None):
+    """Run harness binary <cmd> with args; it writes a JSON result to the path given by --out.
+    Flags must precede positional arguments (Go flag package), so --out is inserted after the sub-command."""
+    exe = build_harness(cmd, race)
     out = os.path.join(sub("res"), "r%d.json" % (int(time.time() * 1e6) % 10 ** 12))
     e = goenv()
     e.update(env or {})
+    argv = [exe, args[0], "--out", out] + list(args[1:])
     try:
-        p = subprocess.run([exe] + args + ["--out", out], stdout=subprocess.PIPE, stderr=subprocess.STDOUT,
-                           timeout=timeout, text=True, env=e, input=stdin)
+        p = subprocess.run(argv, stdout=subprocess.PIPE, stderr=subprocess.STDOUT, timeout=timeout, text=True, env=e, input=stdin)
     except subprocess.TimeoutExpired:
-        raise Machinery("harness timeout: vh %s" % " ".join(args))
+        raise Machinery("harness timeout: %s %s" % (cmd, " ".join(args)))
     if p.returncode != 0 or not os.path.exists(out):
-        raise Machinery("harness failed (rc=%d): vh %s\n%s" % (p.returncode, " ".join(args), p.stdout[-6000:]))
+        raise Machinery("harness failed (rc=%d): %s %s\n%s" % (p.returncode, cmd, " ".join(args), p.stdout[-6000:]))
     r = json.load(open(out))
     r["_log"] = p.stdout
     return r
@@ -329,9 +328,14 @@ class Check:
                 print("KNOWN-FINDING: property=%s %s (%s; %d occurrence(s) in this run)" % (self.pid, kf["what"], kf["id"], n))
         if self.violations:
             d = os.path.join(VERIF, "replays", self.pid)
+            shutil.rmtree(d, True)
             os.makedirs(d, exist_ok=True)
             shown = set()
+            firsts, rest, kinds = [], [], set()
             for v in self.violations:
+                (rest if v.get("kind", "") in kinds else firsts).append(v)
+                kinds.add(v.get("kind", ""))
+            for v in (firsts + rest)[:25]:
                 blob = json.dumps(v, sort_keys=True, default=str)
                 h = hashlib.sha256(blob.encode()).hexdigest()[:12]
                 path = os.path.join(d, h + ".json")
